@@ -723,6 +723,56 @@ func emitTokenFacts(w func(string, ...any), cashuP *pkg) {
 	}
 }
 
+// emitTokenCallers: how cmd/nutw hands its command-line argument to cashu.DecodeToken (C14 anchor nutw.go:194):
+// for `receive` and `decode`, the argument expressions of cashu.DecodeToken, the right-hand sides assigned to those
+// argument variables, and the calls made on the decoded token value.
+func emitTokenCallers(w func(string, ...any), nutwP *pkg) {
+	for _, fn := range []string{"receive", "decode"} {
+		fd := findFunc(nutwP, "", fn)
+		args := callArgs(fd, "cashu.DecodeToken")
+		vars := map[string]bool{}
+		for _, a := range args {
+			for _, x := range a {
+				vars[x] = true
+			}
+		}
+		var assigns, tokenCalls []string
+		if fd != nil && fd.Body != nil {
+			ast.Inspect(fd.Body, func(n ast.Node) bool {
+				switch x := n.(type) {
+				case *ast.AssignStmt:
+					for i, l := range x.Lhs {
+						if vars[exprString(l)] && i < len(x.Rhs) {
+							assigns = append(assigns, exprString(l)+x.Tok.String()+exprString(x.Rhs[i]))
+						}
+					}
+				case *ast.CallExpr:
+					callee := exprString(x.Fun)
+					if strings.HasPrefix(callee, "token.") {
+						tokenCalls = append(tokenCalls, callee)
+					}
+					for _, a := range x.Args {
+						if exprString(a) == "token" {
+							tokenCalls = append(tokenCalls, callee+"(token)")
+						}
+					}
+				}
+				return true
+			})
+		}
+		w("def tok_nutw_%s_decodeArgs : List (List String) := [", fn)
+		for i, r := range args {
+			if i > 0 {
+				w(", ")
+			}
+			w("%s", leanStrList(r))
+		}
+		w("]\n")
+		w("def tok_nutw_%s_assigns : List String := %s\n", fn, leanStrList(assigns))
+		w("def tok_nutw_%s_tokenUses : List String := %s\n", fn, leanStrList(tokenCalls))
+	}
+}
+
 func main() {
 	repo := "/repo"
 	outPath := ""
@@ -1044,6 +1094,7 @@ func main() {
 
 	// --- token functions (C14) ---
 	emitTokenFacts(w, cashuP)
+	emitTokenCallers(w, parseDir(filepath.Join(repo, "cmd/nutw")))
 
 	w("\nend Gonuts.Gen\n")
 
